@@ -63,7 +63,31 @@ def main(argv):
             recs = emit(name, mod); emitted.add(name)
         except slicer.SliceError as e:
             print('INCONCLUSIVE: slicer: %s' % e); inconclusive.append('slicer[%s]: %s' % (name, e)); continue
+        # pre-flight: the unit's translation unit must compile; a sliced function that does not (a construct outside the subset that no LEFTOVER
+        # pattern caught) is taken out of the slice (prototype only) so that the jobs that do not need it still run
+        for attempt in range(4):
+            j0 = jobs[0]
+            cc = ['goto-cc', '--function', j0['entry'], '-DVERIF_CBMC'] + list(j0.get('defines', [])) + ['-I', os.path.join(VERIF, 'contracts'), '-I', gendir, '-I', os.path.join(VERIF, 'stubs'),
+                  os.path.join(VERIF, j0['src']), '-o', os.path.join(build, 'preflight_%s.gb' % name)]
+            pr = subprocess.run(cc, stdout=subprocess.PIPE, stderr=subprocess.PIPE)
+            if pr.returncode == 0: break
+            err = pr.stderr.decode(errors='replace') + pr.stdout.decode(errors='replace')
+            fm = re.search(r"_slice\.c: In function '(\w+)'", err)
+            fnames = {f['name'] for f in mod.UNIT['functions']}
+            if not fm or fm.group(1) not in fnames or fm.group(1) in mod.UNIT.get('exclude', {}): break
+            first = next((l for l in err.splitlines() if 'error' in l), err.strip().splitlines()[-1] if err.strip() else '?')
+            mod.UNIT.setdefault('exclude', {})[fm.group(1)] = '%s: sliced text is not C (%s)' % (fm.group(1), first.strip()[:200])
+            recs = emit(name, mod)
         units[name] = (mod, jobs); slice_recs[name] = recs
+        dropped = {rec['name'] for rec in recs if rec.get('rules', {}).get('R-loop.dropped')}
+        if dropped:
+            kept = []
+            for j in jobs:
+                if j.get('loops') and j.get('enforce') in dropped:
+                    msg = '%s: a loop of %s that carried a loop contract was rewritten: the function contract needs a new loop invariant (not a violation)' % (j['id'], j['enforce'])
+                    print('INCONCLUSIVE: ' + msg); inconclusive.append(msg)
+                else: kept.append(j)
+            jobs = kept; units[name] = (mod, jobs)
         for rec in recs:
             if rec.get('error'):
                 print('INCONCLUSIVE: slicer: %s' % rec['error']); inconclusive.append('slicer[%s.%s]: %s' % (name, rec['name'], rec['error']))
